@@ -100,7 +100,9 @@ def encEmitted (e : List (List Str)) : String :=
   ";".intercalate (e.map fun l => encList (l.map canonVal))
 
 def encOutcomeVars (vars : Vars) (sdk : Sdk) : String :=
-  "ok VARS " ++ encVars (vars.map fun (k, v) => (k, canonVal v)) ++ " EMIT " ++ encEmitted sdk.emitted
+  -- HANDLES = number of live collection handles in the state the run hands back
+  "ok VARS " ++ encVars (vars.map fun (k, v) => (k, canonVal v)) ++ " EMIT " ++ encEmitted sdk.emitted ++
+    " HANDLES " ++ toString sdk.handles.length
 
 def scriptText (b : Block) : Str :=
   -- one rendered line per instruction (default rendering choices), LF-terminated
